@@ -38,6 +38,9 @@ func (e *Eng) specBool(x SpecExpr, c *ctx) string {
 		}
 		nc := *c
 		nc.st = c.old
+		if nc.post == nil {
+			nc.post = c.st
+		}
 		return e.specBool(x.X, &nc)
 	case *SQuant:
 		nb := map[string]Val{}
@@ -126,6 +129,18 @@ func (e *Eng) specBuiltin(x *ast.CallExpr, c *ctx) (Val, bool) {
 			}
 			nc := *c
 			nc.st = c.old
+			if nc.post == nil {
+				nc.post = c.st
+			}
+			return e.eval(x.Args[0], &nc), true
+		case "now":
+			// inside old(...): the value of the argument in the state old() was entered from
+			if c.post == nil {
+				return e.eval(x.Args[0], c), true
+			}
+			nc := *c
+			nc.st = c.post
+			nc.post = nil
 			return e.eval(x.Args[0], &nc), true
 		case "ref":
 			v := e.eval(x.Args[0], c)
@@ -431,6 +446,15 @@ func (e *Eng) ghostInit(g GhostDecl, st *State, symbolic bool) Val {
 		v = mk(KStr, "Str", "str.empty", types.Typ[types.String])
 	case g.Type == "ref":
 		v = mk(KRef, "Int", "0", nil)
+	case strings.HasPrefix(g.Type, "*"):
+		// a typed pointer: *T with T a named type of the package under verification
+		var t types.Type
+		for _, p := range e.u.pkgs {
+			if tn, ok := p.Types.Scope().Lookup(g.Type[1:]).(*types.TypeName); ok && (p == e.pkg || t == nil) {
+				t = types.NewPointer(tn.Type())
+			}
+		}
+		v = mk(KRef, "Int", "0", t)
 	case strings.HasPrefix(g.Type, "map["):
 		i := strings.Index(g.Type, "]")
 		ks, vs := ghostSort(g.Type[4:i]), ghostSort(g.Type[i+1:])
@@ -657,10 +681,26 @@ func (e *Eng) ghostBlock(stmts []ast.Stmt, c *ctx, h *Hook, at *ast.CallExpr) {
 			switch name {
 			case "assert":
 				ord := e.callOrd[at]
-				if label == "" {
-					label = fmt.Sprintf("L%d", h.Line)
+				var props []string
+				for strings.HasPrefix(label, "[") {
+					// "[C04] label": the assertion belongs to the listed properties only
+					i := strings.Index(label, "]")
+					if i < 0 {
+						break
+					}
+					props = append(props, strings.Fields(strings.ReplaceAll(label[1:i], ",", " "))...)
+					label = strings.TrimSpace(label[i+1:])
 				}
-				e.oblig("hook-assert", fmt.Sprintf("call#%d:%s/%s:%s", ord, shortName(h.Callee), h.When, label), c.st, g, at.Pos())
+				oname := fmt.Sprintf("%s/%s:%s", shortName(h.Callee), h.When, label)
+				if label == "" {
+					// unlabelled assertions are told apart by call ordinal and hook line
+					oname = fmt.Sprintf("call#%d:%s/%s:L%d", ord, shortName(h.Callee), h.When, h.Line)
+				}
+				nb := len(e.obls)
+				e.oblig("hook-assert", oname, c.st, g, at.Pos())
+				if len(props) > 0 && len(e.obls) > nb {
+					e.obls[len(e.obls)-1].Note = "props:" + strings.Join(props, ",")
+				}
 				c.st.assume(g)
 			case "assume":
 				c.st.assume(g)
